@@ -155,6 +155,11 @@ ORDER_PROGRAMS = [
     "main:\n    j end\nn1:\n    j n3\nn2:\n    j n1\nn3:\n    beq a0, a1, n2\nn4:\n    li t0, 5\n    beq a2, a3, n1\n    j n2\nend:\n    li a7, 10\n    ecall\n",
     "main:\n    j end\nB1:\n    j B2\nB2:\n    beq a0, a1, B5\nB3:\n    li t0, 5\nB4:\n    j B2\nB5:\n    beq a0, a1, B4\nend:\n    li a7, 10\n    ecall\n",
     "main:\n    li a7, 10\n    ecall\nB1:\n    beq a0, a1, B5\nB2:\n    li t0, 5\nB3:\n    j B1\nB4:\n    beq a0, a1, B1\nB5:\n    beq a0, a1, B3\n",
+    # unreachable regions on which the u_def sets of the liveness pass grew and shrank in turns for ever (the scheme
+    # without a wait rule, PassLoop_Udef_old.cfg; a link jump is a node that writes a register and has two successors)
+    "main:\n    j end\nB1:\n    j B2\nB2:\n    j B3\nB3:\n    beq a0, a1, B1\nB4:\n    jal t1, B2\nend:\n    li a7, 10\n    ecall\n",
+    "main:\n    j end\nB1:\n    j B2\nB2:\n    beq a0, a1, B3\nB3:\n    beq a0, a1, B1\nB4:\n    jal t1, B3\nend:\n    li a7, 10\n    ecall\n",
+    "main:\n    li a7, 10\n    ecall\nB1:\n    j B2\nB2:\n    j B3\nB3:\n    beq a0, a1, B1\nB4:\n    jal t1, B2\n    li a7, 10\n    ecall\n",
 ]
 ORDER_PROGRAMS = [p for p in ORDER_PROGRAMS if p]
 
